@@ -71,7 +71,8 @@ def opCfg (args : List String) (impl : String) : Verdict :=
             if bad fOut ∨ bad eOut then some ("C16: effective " ++ kv.1 ++ " differs from the written value " ++ toString v) else none
           else none
     let allDocumented : Bool := entries.all fun kv =>
-      if kv.1 ∉ intKeys then true else
+      -- (a YAML null — `~`, `null`, a blank — is file syntax, not a value both sources can be given)
+      if kv.1 ∉ intKeys then !(kv.2 == "~" || kv.2 == "null" || kv.2 == "") else
       match yamlInt kv.2 with
       | some v => (match documented kv.1 v with | some b => b | none => decide (1 ≤ v ∧ v ≤ 65535))
       | none => false
